@@ -180,6 +180,10 @@ def _signame(n):
         return 'SIG%d' % n
 
 
+class _NotReady(Exception):
+    pass
+
+
 class Runner:
     """Runs cases in child processes; returns one process-level record per case:
        dict(end='ok'|'signal'|'exit'|'hang', obs=<child observation>|None, sig=, rc=, stderr=, alone=bool, secs=)"""
@@ -208,6 +212,7 @@ class Runner:
         self.children = 0
         self.history_crashes = []      # [(list of cases, process record)]
         self.end_counts = {}
+        self.not_ready_retries = 0
         self.post = None               # (case, process record) -> what run_cases returns for the case
 
     def close(self):
@@ -217,6 +222,19 @@ class Runner:
 
     # ---- one child
     def _child(self, cases, timeout, cpu_floor=None):
+        """Run one child; a child that never reports 'ready' (imports done) says nothing about the code under test
+        and is retried twice before the run is abandoned as a harness error."""
+        last = None
+        for attempt in range(3):
+            try:
+                return self._child_once(cases, timeout, cpu_floor)
+            except _NotReady as e:
+                last = e
+                with self._lock:
+                    self.not_ready_retries += 1
+        raise RuntimeError(str(last))
+
+    def _child_once(self, cases, timeout, cpu_floor=None):
         with self._lock:
             self._n += 1
             self.children += 1
@@ -274,7 +292,7 @@ class Runner:
         if herr:
             raise RuntimeError(herr)
         if not ready:
-            raise RuntimeError('C06 child did not get ready (rc=%r, timed_out=%r): %s' % (rc, timed_out, err[-1500:]))
+            raise _NotReady('C06 child did not get ready (rc=%r, timed_out=%r, %.0f s): %s' % (rc, timed_out, secs, err[-1500:]))
         seg = {}
         if self.markers and '@@C06 BEGIN ' in err:
             parts = err.split('@@C06 BEGIN ')
@@ -330,7 +348,8 @@ class Runner:
             if len(pending) == 1:
                 self._store(out, pending[0], cases[pending[0]], self.run_alone(cases[pending[0]]))
                 return
-            r = self._child([cases[i] for i in pending], timeout=90 + 2.0 * len(pending))
+            r = self._child([cases[i] for i in pending], timeout=90 + 2.0 * len(pending),
+                            cpu_floor=HANG_CPU + 0.2 * len(pending))
             for k, o in r['obs'].items():
                 self._store(out, pending[k], cases[pending[k]],
                             dict(end='ok', obs=o, alone=False, stderr=_interesting_stderr(r['seg'].get(k, ''))))
@@ -484,6 +503,9 @@ def judge(case, proc, asan=False):
             viol.append(('C06/asan/dynamic-liquid-top/stack-buffer-overflow-cf_apply_surface_bc', dict(desc)))
         elif flt == 'expected1' and 'CySolver__solve' in rep['frames']:
             viol.append(('C06/asan/expected_size-1-cyrk-storage-overflow', dict(desc)))
+        elif (flt == 'empty_arrays' and rep['kind'] == 'heap-buffer-overflow' and 'READ of size 8' in rep['head']
+              and rep['frames'].split(' ')[0].endswith('cf_radial_solver')):
+            viol.append(('C06/asan/empty-arrays/oob-read-radius_array-minus-1-cf_radial_solver', dict(desc)))
         else:
             viol.append(('C06/asan/other/%s' % rep['kind'], dict(desc, stderr=err[-3000:])))
         obs = ('asan', rep['kind'])
@@ -652,6 +674,7 @@ def run(ctx):
             for site, detail in v['viol']:
                 ctx.violation(site, hc, detail)
         ctx.coverage['children_spawned'] = runner.children
+        ctx.coverage['children_restarted_before_ready'] = runner.not_ready_retries
         ctx.coverage['history_dependent_deaths'] = len(runner.history_crashes)
     finally:
         runner.close()
